@@ -4,6 +4,8 @@ import NixModel.Spec.C01
 import NixModel.Dump
 import NixModel.Drive.StoreModel
 import NixModel.Drive.FileState
+import NixModel.Spec.C14
+import NixModel.Spec.C15
 namespace Nix.Drive
 
 /-- the axis a trace is currently talking about (index family) -/
@@ -34,11 +36,29 @@ structure StoreSt where
   slotInfo : List (String × (String × String × String)) := []   -- slot ↦ (kind, parent slot, name token), from mk
   lastDeleted : Option String := none             -- the slot whose entity the last mutating op deleted (answer `ok 1`)         -- id ↦ "kind name created" as first observed
 
+/-- props family (C14): the property model and the history of calls the IMPLEMENTATION accepted (most recent first) -/
+structure PvSt where
+  model : PV.SecSt String String := {}
+  hist : List (C14.Ev String String) := []
+  opened : Bool := false
+
+/-- frame family (C15): the frame model and the history of calls the IMPLEMENTATION accepted (most recent first) -/
+structure FrSt where
+  model : DF.FSt String := {}
+  hist : List (C15.Ev String) := []
+  opened : Bool := false
+
+/-- the state of the `props` (C14) and `frame` (C15) families -/
+structure DevPropsSt where
+  pv : PvSt := {}
+  fr : FrSt := {}
+
 structure DState where
   axis : AxisDesc := .none
   arr : Option ArrSt := none
   store : StoreSt := {}
   smodel : StoreModel.MState := {}             -- the Lean store model replayed alongside (store family)
   fileFam : FileFamSt := {}       -- modes / crash / ids families (C09 C11 C12)
+  dp : DevPropsSt := {}
 
 end Nix.Drive
